@@ -369,6 +369,10 @@ func c19RunIs(ctx *Ctx, c c19IsCase) {
 		ctx.Fail("reference.Is is not transitive", desc)
 		return
 	}
+	if ab && bc && !ac {
+		ctx.Fail("reference.Is is not transitive (a reference without a resolvable target is involved)", desc)
+		return
+	}
 	// model: two references that resolve compare equal iff their identities are equal
 	if resolves(a) && resolves(b) && a.GetIdentifier() == nil && b.GetIdentifier() == nil {
 		ia, _ := reference.IdentityOf(a)
